@@ -693,16 +693,25 @@ class BaseShampooPreconditionerList(
             exception (Exception): The exception to raise.
 
         """
+        # NOTE: The counters are written through to the local list so that they survive the
+        # re-compression of the masked lists when the set of active blocks changes.
+        local_index = self._masked_to_local_index_list[preconditioner_index]
         if all(success_tracker):
             # Reset counter for failed amortized computations.
             self._masked_failed_amortized_computation_counter_list[
                 preconditioner_index
             ] = 0
+            self._local_failed_amortized_computation_counter_list[local_index] = 0
         else:
             # Increment counter for failed amortized computations.
             self._masked_failed_amortized_computation_counter_list[
                 preconditioner_index
             ] += 1
+            self._local_failed_amortized_computation_counter_list[local_index] = (
+                self._masked_failed_amortized_computation_counter_list[
+                    preconditioner_index
+                ]
+            )
             # Raise the exception if the tolerance at the given index is exceeded.
             failure_counter = self._masked_failed_amortized_computation_counter_list[
                 preconditioner_index
@@ -777,6 +786,9 @@ class BaseShampooPreconditionerList(
         self._masked_failed_amortized_computation_counter_list: list[int] = (
             self._local_failed_amortized_computation_counter_list
         )
+        self._masked_to_local_index_list: tuple[int, ...] = tuple(
+            range(len(self._local_kronecker_factors_list))
+        )
         self._masked_kronecker_factors_list: tuple[
             ShampooKroneckerFactorsListType,
             ...,
@@ -817,6 +829,11 @@ class BaseShampooPreconditionerList(
                         local_grad_selector,
                     )
                 )
+            )
+            self._masked_to_local_index_list = tuple(
+                index
+                for index, selected in enumerate(local_grad_selector)
+                if selected
             )
             self._masked_kronecker_factors_list: tuple[  # type: ignore[no-redef]
                 ShampooKroneckerFactorsListType,
